@@ -28,6 +28,7 @@ type Opts struct {
 	MarkerHeavy  bool // whitespace markers on most elements
 	RenderHeavy  bool // favour @render / @children
 	EmptyBlocks  bool // allow a block that contains only `-#` comments
+	Trailers       bool // Go code after the closing brace of a template, on the same line
 	MultiLineFrags bool // Go fragments containing a newline (finding C07/multiline)
 }
 
@@ -183,6 +184,13 @@ func (g *G) elemHead() *Node {
 		n.ObjRef = g.pick("o0", `o0, "pre"`)
 	}
 	g.attrs(n)
+	if g.O.MultiLineFrags && g.chance(4) {
+		// a fragment spanning lines followed by another fragment on the same generated line
+		n.ObjRef = "pickObj(o0,\n\t\t\t\to0)"
+		if n.ClassAttr == "" && len(n.ClassExprs) == 0 {
+			n.ClassExprs = []string{"s1"}
+		}
+	}
 	mk := g.R.Intn(8)
 	if g.O.MarkerHeavy {
 		mk = g.R.Intn(4)
@@ -326,6 +334,12 @@ func (g *G) Block(depth int) []*Node {
 				}
 				ps = append(ps, Part{Static: g.pick("", " t", ";")})
 				f.Lines = append(f.Lines, ps)
+				if j+1 < nl && g.chance(3) {
+					f.Lines = append(f.Lines, nil) // an empty line between two lines of the body
+					if g.chance(3) {
+						f.Lines = append(f.Lines, nil)
+					}
+				}
 			}
 			out = append(out, f)
 		case 9:
@@ -398,7 +412,7 @@ func GenFile(r *rand.Rand, o Opts, nLayouts, nPages int) *File {
 		o.MaxDepth = 3
 		g.O.MaxDepth = 3
 	}
-	f.Chrome = append(f.Chrome, Chrome+"\nfunc f2(a, b string) string { return a + b }\n")
+	f.Chrome = append(f.Chrome, Chrome+"\nfunc f2(a, b string) string { return a + b }\nfunc pickObj(a, b Obj) Obj   { return a }\n")
 	for i := 0; i < nLayouts; i++ {
 		g.layoutsAvail = i
 		g.allowChildren = true
@@ -410,6 +424,17 @@ func GenFile(r *rand.Rand, o Opts, nLayouts, nPages int) *File {
 	g.allowChildren = false
 	for i := 0; i < nPages; i++ {
 		f.Templates = append(f.Templates, &Template{Name: fmt.Sprintf("P%d", i), Sig: Sig, Body: g.Block(g.O.MaxDepth)})
+	}
+	if o.Trailers {
+		// Go code on the line of a template's closing brace
+		for i, t := range f.Templates {
+			switch g.R.Intn(3) {
+			case 0:
+				t.Trailer = fmt.Sprintf(" // end of %s", t.Name)
+			case 1:
+				t.Trailer = fmt.Sprintf("; var after%d = %d", i, i)
+			}
+		}
 	}
 	return f
 }
